@@ -174,8 +174,8 @@ def collect():
     t = parse("labella/utils.py")
     f = find_func(t, "int2name")
     lits = num_literals(f)
-    C["nameBase"] = ("rat", rat(the_one([v for v in lits if v > 1 and v < 60], "int2name base")))
-    C["nameFirstChar"] = ("rat", rat(the_one([v for v in lits if v >= 60], "int2name first char")))
+    C["nameBase"] = ("nat", the_one([v for v in lits if v > 1 and v < 60], "int2name base"))
+    C["nameFirstChar"] = ("nat", the_one([v for v in lits if v >= 60], "int2name first char"))
     return C
 
 
@@ -187,6 +187,10 @@ def render(C):
         v = C[k]
         if v[0] == "rat":
             lines.append("def %s : Rat := %s" % (k, lean_rat(v[1])))
+        elif v[0] == "nat":
+            if not (isinstance(v[1], int) and v[1] >= 0):
+                raise KeyError("%s is not a natural number literal: %r" % (k, v[1]))
+            lines.append("def %s : Nat := %d" % (k, v[1]))
         elif v[0] == "optrat":
             lines.append("def %s : Option Rat := %s" % (k, lean_opt_rat(v[1])))
         elif v[0] == "str":
